@@ -286,7 +286,7 @@ func TestReplayC07(t *testing.T) {
 // ---- C08
 
 func recC08() *vkit.Recorder {
-	r := vkit.Rec("C08", "exploration", "single-cycle scenarios over subsets of shards x health scripts (unready, either GET failing, push rejected / without effect / accepted, re-check failing) combined with pending work; (scripts can also fail the second status request of a cycle), plus 2-3 cycle histories in which a shard loses its configuration again; 35% of the scenarios run through the real pkg/api client (failed requests in six on-the-wire shapes); unit TestC08Reload: real ConfigManager loaded from a file with refused and accepted reloads, then a real cycle pushing to a real sidecar; judged on the complete per-shard request log; non-trivial = >=1 shard not in sync and >=1 in-sync shard with pending work; distinct = scenario digest")
+	r := vkit.Rec("C08", "exploration", "single-cycle scenarios over subsets of shards x health scripts (unready, either GET failing, push rejected / without effect / accepted, re-check failing) combined with pending work; (scripts can also fail the second status request of a cycle, or stop answering when the targets update arrives: nothing further may be sent in that cycle), plus 2-3 cycle histories in which a shard loses its configuration again; 35% of the scenarios run through the real pkg/api client (failed requests in six on-the-wire shapes); unit TestC08Reload: real ConfigManager loaded from a file with refused and accepted reloads, then a real cycle pushing to a real sidecar; judged on the complete per-shard request log; non-trivial = >=1 shard not in sync and >=1 in-sync shard with pending work; distinct = scenario digest")
 	r.Assume(cycAssume)
 	return r
 }
@@ -303,6 +303,17 @@ func TestC08(t *testing.T) {
 	rec := recC08()
 	rapid.Check(t, func(t *rapid.T) {
 		sc := Gen(t, biasC08())
+		if rapid.IntRange(0, 3).Draw(t, "postFails") == 0 {
+			// some healthy shards stop answering when their targets update arrives
+			for ri := range sc.Replicas {
+				for si := range sc.Replicas[ri].Shards {
+					sp := &sc.Replicas[ri].Shards[si]
+					if sp.Ready && sp.StatusOK && sp.Runtime1OK && rapid.Bool().Draw(t, fmt.Sprintf("r%ds%d-postFail", ri, si)) {
+						sp.TargetsPostFail = true
+					}
+				}
+			}
+		}
 		if msg := Check(rec, "TestC08", sc, JudgeC08, Execs()); msg != "" {
 			t.Fatalf("%s", msg)
 		}
